@@ -7,6 +7,23 @@
 From FB Require Import Sem.Base Model.Fb Model.Adapters.
 Open Scope Z_scope.
 
+Inductive dstat := DrOk | DrErr (k : ekind) | DrPanic | DrFuel.
+(* read a take adapter over ANY inner reader with destinations of the scheduled lengths until it returns Ok(0) on a non-empty one *)
+Fixpoint drain_gen {S : Type} (chk : bool) (Src : Reader S) (fuel : nat) (dests : list Z) (acc : list Z) (w : @tw S)
+  : list Z * dstat * @tw S :=
+  match fuel with
+  | O => (acc, DrFuel, w)
+  | S f =>
+    let d := match dests with [] => 8 | x :: _ => x end in
+    match take_read chk Src (repeat 221 (Z.to_nat d)) w with
+    | Val (Ok n, dest') w' =>
+        (* Ok(0) means end of payload only when the destination was non-empty *)
+        if (n =? 0) && negb (d =? 0) then (acc, DrOk, w') else drain_gen chk Src f (tl dests) (acc ++ firstn (Z.to_nat n) dest') w'
+    | Val (Err k, _) w' => (acc, DrErr k, w')
+    | Panic w' => (acc, DrPanic, w')
+    end
+  end.
+
 Section SERVE.
 Variable SIZE : Z.
 Variable chk : bool.
@@ -33,21 +50,9 @@ Definition CHR : Reader CW := {| rd := fun w dest =>
   | Panic w' => (RPanic, w')
   end |}.
 
-Inductive dstat := DrOk | DrErr (k : ekind) | DrPanic | DrFuel.
-(* read the take adapter with destinations of the scheduled lengths until it returns Ok(0) *)
-Fixpoint drain (fuel : nat) (dests : list Z) (acc : list Z) (w : @tw CW) : list Z * dstat * @tw CW :=
-  match fuel with
-  | O => (acc, DrFuel, w)
-  | S f =>
-    let d := match dests with [] => 8 | x :: _ => x end in
-    match take_read chk CHR (repeat 221 (Z.to_nat d)) w with
-    | Val (Ok n, dest') w' =>
-        (* Ok(0) means end of payload only when the destination was non-empty *)
-        if (n =? 0) && negb (d =? 0) then (acc, DrOk, w') else drain f (tl dests) (acc ++ firstn (Z.to_nat n) dest') w'
-    | Val (Err k, _) w' => (acc, DrErr k, w')
-    | Panic w' => (acc, DrPanic, w')
-    end
-  end.
+(* read a take adapter with destinations of the scheduled lengths until it returns Ok(0) *)
+Definition drain (fuel : nat) (dests : list Z) (acc : list Z) (w : @tw CW) : list Z * dstat * @tw CW :=
+  drain_gen chk CHR fuel dests acc w.
 (* Write::write_all through the chain *)
 Fixpoint write_all (fuel : nat) (data : list Z) (w : CW) : dstat * CW :=
   match fuel with
